@@ -35,7 +35,7 @@ fn scratch_root() -> PathBuf {
     base.join(format!("c16-{}", std::process::id()))
 }
 
-struct Sut { db: Option<Database>, dir: PathBuf, seq: u64, loaded: Option<Table> }
+struct Sut { db: Option<Database>, dir: PathBuf, seq: u64, loaded: Option<Vec<Table>> }
 
 #[derive(Clone, Debug, PartialEq)]
 enum AOut { Rows(Vec<Vec<Val>>), Err(String), Panic(String), Bad(String) }
@@ -82,15 +82,17 @@ impl Sut {
     fn close(&mut self) { self.db = None; self.loaded = None; }
     fn cleanup(&mut self) { self.close(); let _ = std::fs::remove_dir_all(&self.dir); }
     /// fresh database holding exactly table `t`; checks that the stored rows read back identically
-    fn load(&mut self, t: &Table) -> Result<(), String> {
+    fn load(&mut self, t: &Table) -> Result<(), String> { self.load_all(std::slice::from_ref(t)) }
+    fn load_all(&mut self, ts: &[Table]) -> Result<(), String> {
         self.close();
         self.seq += 1;
         let _ = std::fs::remove_dir_all(&self.dir);
         std::fs::create_dir_all(&self.dir).map_err(|e| format!("mkdir: {}", e))?;
         let path = self.dir.join(format!("db{}", self.seq));
-        let t2 = t.clone();
+        let ts2 = ts.to_vec();
         let res = catch(std::panic::AssertUnwindSafe(move || -> Result<Database, String> {
             let db = Database::create(&path).map_err(|e| format!("create: {:#}", e))?;
+            for t2 in &ts2 {
             db.execute(&t2.create_sql()).map_err(|e| format!("ddl: {:#}", e))?;
             for r in 0..t2.rows.len() { db.execute(&t2.insert_sql(r)).map_err(|e| format!("insert: {:#}", e))?; }
             let back = db.query(&format!("SELECT * FROM {}", t2.name)).map_err(|e| format!("readback: {:#}", e))?;
@@ -100,20 +102,31 @@ impl Sut {
                     return Err(format!("readback: stored row differs: {:?} vs {:?}", row, got.values));
                 }
             }
+            }
             Ok(db)
         }));
         match res {
-            Caught::Done(Ok(db)) => { self.db = Some(db); self.loaded = Some(t.clone()); Ok(()) }
+            Caught::Done(Ok(db)) => { self.db = Some(db); self.loaded = Some(ts.to_vec()); Ok(()) }
             Caught::Done(Err(e)) => Err(e),
             Caught::Panicked(m) => Err(format!("panic during setup: {}", m)),
         }
     }
     fn ensure(&mut self, t: &Table) -> Result<(), String> {
-        if self.db.is_some() && self.loaded.as_ref() == Some(t) { Ok(()) } else { self.load(t) }
+        if self.db.is_some() && self.loaded.as_deref() == Some(std::slice::from_ref(t)) { Ok(()) } else { self.load(t) }
     }
     fn observe(&mut self, t: &Table, q: &Query) -> AOut {
         if let Err(m) = self.ensure(t) { return AOut::Bad(format!("setup: {}", m)); }
         let sql = q.to_sql(&t.name);
+        self.run_sql(&sql)
+    }
+    fn observe_join(&mut self, jc: &JoinCase) -> AOut {
+        let both = [jc.l.clone(), jc.r.clone()];
+        if !(self.db.is_some() && self.loaded.as_deref() == Some(&both[..])) {
+            if let Err(m) = self.load_all(&both) { return AOut::Bad(format!("setup: {}", m)); }
+        }
+        self.run_sql(&jc.to_sql())
+    }
+    fn run_sql(&mut self, sql: &str) -> AOut {
         let db = self.db.as_ref().expect("db");
         let r = catch(std::panic::AssertUnwindSafe(|| db.query(&sql).map_err(|e| format!("{:#}", e))));
         match r {
@@ -153,11 +166,29 @@ fn emit(w: &mut CaseWriter, sut: &mut Sut, t: &Table, q: &Query, stream: &str) {
     for (f, _) in &q.aggs { w.count(&format!("fn:{}", f.name()), 1); }
 }
 
+fn emit_join(w: &mut CaseWriter, sut: &mut Sut, jc: &JoinCase, stream: &str) {
+    let out = sut.observe_join(jc);
+    if let AOut::Bad(m) = &out { eprintln!("c16: unexpected result shape: {} on {}", m, jc.replay_line()); }
+    let term = format!("{} {}", jc.to_coq(), out.coq());
+    let spec = jc.spec();
+    let kind = format!("{}:join:keys{}", stream, jc.q.keys.len());
+    w.push(term, jc.replay_line(), spec != Spec::NoDemand, &kind);
+    w.count(out.bucket(), 1);
+    w.count("path:join+hand_written_aggregate(AggregateGroups)", 1);
+    w.count("class:8", 1);
+    if spec == Spec::NoDemand { w.count("spec:no_demand", 1); }
+    for (f, _) in &jc.q.aggs { w.count(&format!("fn:{}", f.name()), 1); }
+}
+
 fn gen(a: &Args) {
     let mut w = CaseWriter::new(&a.out, "C16", "Corr.C16", 400);
     let mut sut = Sut::new();
     if let Some(lines) = a.replay_lines() {
         for l in lines {
+            if l.starts_with("aggj ") {
+                match JoinCase::parse(&l) { Some(jc) => emit_join(&mut w, &mut sut, &jc, "replay"), None => eprintln!("c16: cannot parse replay line: {}", l) }
+                continue;
+            }
             match parse_replay(&l) {
                 Some((t, q)) => emit(&mut w, &mut sut, &t, &q, "replay"),
                 None => eprintln!("c16: cannot parse replay line: {}", l),
@@ -177,6 +208,9 @@ fn gen(a: &Args) {
     for (t, q) in boundary_cases() {
         emit(&mut w, &mut sut, &t, &q, "boundary");
     }
+    // ---- aggregates over a join: the hand-written path of database.rs
+    for jc in structured_join_cases() { emit_join(&mut w, &mut sut, &jc, "structured"); }
+    for _ in 0..(if a.thorough() { 1500 } else { 90 }) { let jc = gen_join_case(&mut rng); emit_join(&mut w, &mut sut, &jc, "random"); }
     // ---- random streams
     let (ntables, per_table) = if a.thorough() { (600, 40) } else { (60, 16) };
     for k in 0..ntables {
@@ -218,6 +252,21 @@ fn search(a: &Args) {
     'outer: while tried < budget {
         let (_, cfg, qc) = stream_cfg(k);
         k += 1;
+        if k % 9 == 0 {
+            for _ in 0..10 {
+                let jc = gen_join_case(&mut rng);
+                tried += 1;
+                let out = sut.observe_join(&jc);
+                let ok = match (&out, jc.spec()) {
+                    (AOut::Panic(_), _) | (AOut::Bad(_), _) => false,
+                    (_, Spec::NoDemand) => true,
+                    (AOut::Err(_), Spec::Error) => true,
+                    (AOut::Rows(rs), Spec::Rows(want)) => bag_equiv(&want, rs),
+                    _ => false,
+                };
+                if !ok && fails.len() < 30 { fails.push(format!("{} #k=8", jc.replay_line())); }
+            }
+        }
         let t = gen_table(&mut rng, "t", &cfg);
         if sut.load(&t).is_err() { tried += 1; continue; }
         for _ in 0..30 {
